@@ -476,6 +476,7 @@ theorem dateOfString_no_panic (ty : DateTy) (s : List Char) : (dateOfString ty s
     rw [hp] at this
     cases e with
     | err m => rfl
+    | errCtx m a => rfl
     | panic m => cases this
   | ok z =>
     simp only [bind, Except.bind]
